@@ -40,7 +40,7 @@ def normalise(findings):
 
 
 def check(res, thorough):
-    ok_t, ok_b, ok_h = core.prepare(res, "AscaVerif.Props.C02", thorough=thorough)
+    ok_t, ok_b, ok_h = core.prepare(res, "AscaVerif.Props.C02", thorough=thorough, extra_props=["AscaVerif.Props.C02Word"])
     tier = "thorough" if thorough else "quick"
     scratch = core.scratch_dir("c02")
     try:
@@ -69,7 +69,7 @@ def check(res, thorough):
                     "(words <= ~20 segments, rules <= ~40 tokens: far above |word| x |rule|); non-trivial = the call changed a word or returned an error")
         res.assumptions = ["release profile: integer overflow wraps instead of panicking (a debug build panics in more places)",
                            "stack overflow, allocation failure and wall-clock time are outside the model",
-                           "the rule/alias lexers and parsers are not ported yet: their totality is checked by the search only"]
+                           "the rule/alias lexers and parsers are not ported: their totality is checked by the search only (the word parser's is proved: Props/C02Word)"]
     finally:
         shutil.rmtree(scratch, ignore_errors=True)
     return res.finish()
